@@ -29,6 +29,12 @@ pub enum Amf0DeserializationError {
     /// UTF-8 this error will be raised.
     #[error("Failed to read a utf8 string from the byte buffer: {0}")]
     StringParseError(#[from] string::FromUtf8Error),
+
+    /// Objects and arrays were nested inside each other more than `MAX_NESTING_DEPTH` levels
+    /// deep.  Reading values recurses once per level of nesting, so without a limit a small
+    /// amount of crafted input could overflow the stack.
+    #[error("Objects and arrays are nested too deeply")]
+    NestingTooDeep,
 }
 
 /// Errors raised during to the serialization process
@@ -43,6 +49,11 @@ pub enum Amf0SerializationError {
     /// represented in AMF0 (an empty name marks the end of an object)
     #[error("Object property names cannot be empty")]
     EmptyObjectPropertyName,
+
+    /// Objects and arrays were nested inside each other more than `MAX_NESTING_DEPTH` levels
+    /// deep, which the deserializer would refuse to read back.
+    #[error("Objects and arrays are nested too deeply")]
+    NestingTooDeep,
 
     /// An I/O error occurred while writing to the output buffer.
     #[error("Failed to write to byte buffer")]
